@@ -63,7 +63,7 @@ func genC14() *rapid.Generator[c14Case] {
 		}
 		c.PauseAt = rapid.IntRange(0, 3).Draw(t, "pauseat")
 		c.QLife = pick(t, "qlife", []string{"", "started", "stopped", "stopped"})
-		if c.Mode == "span" && chance(t, "manyfiles", 30) {
+		if c.Mode == "span" && chance(t, "manyfiles", 45) {
 			// many candidate files (more than any internal page size), the query
 			// paused early in its iteration while a merge rewrites later files
 			c.Steps = nil
@@ -72,6 +72,9 @@ func genC14() *rapid.Generator[c14Case] {
 			}
 			c.Steps = append(c.Steps, c14Step{Op: "merge"})
 			c.PauseAt = pick(t, "mpause", []int{0, 1, 10, 40, 63, 64, 70})
+			if chance(t, "manymem", 60) {
+				c.Meta = "mem"
+			}
 		}
 		c.SpanWhat = pick(t, "spanwhat", []string{"merge", "merge", "flush"})
 		c.Writers = rapid.IntRange(1, 3).Draw(t, "writers")
